@@ -31,9 +31,12 @@ var str = []string{tmplgen.TString}
 
 // landed maps fixed findings to the proposed fix (the lead resolves PENDING to the commit through proposed_fixes/APPLIED.txt).
 var landed = map[string][2]string{
-	"C06-F2": {"PENDING", "C06-string-escaped-backslash.diff"},
-	"C06-F3": {"PENDING", "C06-tag-context-space.diff"},
-	"C06-F4": {"PENDING", "C06-script-type-js-mime.diff"},
+	"C06-F2":  {"PENDING", "C06-string-escaped-backslash.diff"},
+	"C06-F3":  {"PENDING", "C06-tag-context-space.diff"},
+	"C06-F4":  {"PENDING", "C06-script-type-js-mime.diff"},
+	"C06-F23": {"PENDING", "C06-lexer-context-raw-labelled.diff"},
+	"C06-F24": {"PENDING", "C06-script-first-type-attribute.diff"},
+	"C06-F25": {"PENDING", "C06-tag-name-show.diff"},
 }
 
 func main() {
@@ -116,6 +119,24 @@ func main() {
 	add("C06-F22", "open", tmplgen.ScopeRawTextTagQuote,
 		"the content of RCDATA and raw-text elements (title, textarea, xmp, noscript, iframe, ...) is lexed as markup: a tag with an unbalanced quote inside it (<textarea><a title=\"x</textarea>) leaves the lexer in an attribute value, so values in a following script are HTML-escaped into code and unquoted attribute values keep their spaces",
 		c06.Witness("finding:C06-F22", "index.html", html("<textarea><a title=\"x</textarea><script>var c = {{ v0 }};</script><p title={{ v0 }}>x</p>"), str, s("alert(1) onclick")))
+	add("C06-F23", "fixed", tmplgen.ScopeRawLabelled,
+		"{% raw %} and labeled statements ({% L: for ... %}) inside a macro with an explicit result type or a using body pop the lexer's saved context at their {% end %}: the rest of the body is lexed in the context of the file, a value in a js macro is HTML-escaped instead of quoted",
+		c06.Witness("finding:C06-F23", "index.html", html("{% macro M(p string) js %}{% raw %}/* r */{% end raw %}{{ p }}{% end macro %}{% macro N(p string) js %}{% L: for i := 0; i < 1; i++ %}/* r */{% break L %}{% end for %}{{ p }}{% end macro %}<script>var a = {{ M(v0) }}; var b = {{ N(v0) }};</script>"), str, s("1;alert(1)")))
+	add("C06-F24", "fixed", tmplgen.ScopeDupType,
+		"a script element with two type attributes is lexed by the last non-JavaScript one while browsers use the first: <script type=\"text/javascript\" type=\"text/plain\"> is executed, its values are only HTML-escaped",
+		c06.Witness("finding:C06-F24", "index.html", html("<script type=\"text/javascript\" type=\"text/plain\">var a = {{ v0 }};</script>"), str, s("alert(1)")))
+	add("C06-F25", "fixed", tmplgen.ScopeTagNameWhole,
+		"a value used as a whole tag name (<{{ x }}>) is shown in HTML context (HTML-escaped only): a space in it starts attributes",
+		c06.Witness("finding:C06-F25", "index.html", html("<{{ v0 }} class=c>t</div>"), str, s("img src=y onerror=alert(1)")))
+	add("C06-F26", "open", tmplgen.ScopeRegexHole,
+		"a value shown inside a JavaScript regular-expression literal is rendered as a quoted JS string, whose escaping leaves / and [ untouched: it ends or unbalances the literal",
+		c06.Witness("finding:C06-F26", "index.html", html("<script>var r = /a{{ v0 }}b/; var c = 1;</script>"), str, s("/;alert(1);/")))
+	add("C06-F27", "open", tmplgen.ScopeMDCodeSpan,
+		"a value shown inside a Markdown code span is backslash-escaped, but backslash escapes do not work in code spans: a back quote in the value ends the span",
+		c06.Witness("finding:C06-F27", "index.md", md("Inline `a {{ v0 }} b` code.\n"), str, s("x` *em* `y")))
+	add("C06-F28", "open", tmplgen.ScopeBytesHTML,
+		"a []byte value (a slice of numbers, not a trusted type) is written raw in HTML context; the repository's test \"Byte slices are rendered as they are in context HTML\" pins this behaviour, so it is recorded, not repaired",
+		c06.Witness("finding:C06-F28", "index.html", html("<p>{{ v0 }}</p>"), []string{tmplgen.TBytes}, []tmplgen.Value{tmplgen.StrVal(tmplgen.TBytes, "<script>alert(1)</script>", "witness")}))
 	b, _ := json.MarshalIndent(fs, "", " ")
 	os.WriteFile("props/c06/findings.json", append(b, '\n'), 0o644)
 }
